@@ -36,7 +36,7 @@ impl Scenario for C18 {
         vec!["the numeric bound is asserted only under I/O-atomic schedules; under free schedules publishers can refill a channel while the I/O thread drains it, which the code does not bound (DESIGN.md §7 C18)".into()]
     }
     fn plan(&self, thorough: bool, seed: u64) -> Vec<CaseSpec> {
-        plan_random("C18", "stall", seed, if thorough { 60_000 } else { 3_000 })
+        plan_random("C18", "stall", seed, if thorough { 80_000 } else { 5_000 })
     }
     fn run_case(&self, spec: &CaseSpec, text: bool) -> CaseReport {
         let mut cs = spec.stream();
